@@ -16,7 +16,8 @@ RULE = ("Traced runs of both front ends from the shared end-to-end generator wit
         "1e-10*sqrt(S_ii S_jj) + 1e-300; 0-d array accepted for NW=1); the k-th optimiser call of the round received that "
         "covariance bit for bit, the caller's sparsity weight (same object or equal value), W and N. Non-trivial = the "
         "round follows a repopulation or biased=True, in a run with >= 2 rounds; distinct by SHA-1 of the case."
-        " Separately: every MRF stored by an optimise phase equals a fresh solve of that cluster's own covariance, with the synchronous pool and with the library's pool of 2-4 worker processes (K>=3).")
+        " Separately: every MRF stored by an optimise phase equals a fresh solve of that cluster's own covariance, with the synchronous pool and with the library's pool of 2-4 worker processes (K>=3)."
+        ' Requested floors 1e-3..0.3 and the biased flag as bool / np.bool_ / int are part of the run configurations.')
 ASSUMPTIONS = ["per-round states via the guarded phase hook; optimiser arguments via substitution of the public entry point under a synchronous pool"]
 
 
@@ -167,7 +168,8 @@ SUBCHECKS = [
              budget={"quick": 15, "thorough": 300}, shards={"quick": 3, "thorough": 16}, modes=E2E_MODES),
     SubCheck(name="per_round_statistics_and_optimiser_arguments",
              strategy=lambda: gen.e2e_config(betas=(0.0, 0.5, 2.0, 10.0, 50.0, 400.0), limits=(2, 3, 5, 30),
-                                             lam_forms=("scalar", "scalar", "const_matrix", "random_matrix", "asymmetric_matrix"), allow_degenerate=True), execute=execute,
+                                             lam_forms=("scalar", "scalar", "const_matrix", "random_matrix", "asymmetric_matrix"), allow_degenerate=True,
+                                             eps_values=(0, 0, 0, 1e-3, 0.05, 0.3)), execute=execute,
              budget={"quick": 160, "thorough": 4000}, shards={"quick": 16, "thorough": 8}, modes=E2E_MODES,
              min_nontrivial_fraction=0.25),
     SubCheck(name="stored_fit_is_the_clusters_own_also_with_worker_processes", strategy=_multiworker_case, execute=execute_fit_belongs_to_cluster,
